@@ -326,7 +326,8 @@ func (k *Walker) resetWithReflog(hostilePct int) {
 	var arg string
 	if k.chance(hostilePct) {
 		k.invalid = "bad-reflog-position"
-		arg = pickS(k.R, []string{fmt.Sprintf("HEAD@{%d}", n), fmt.Sprintf("HEAD@{%d}", n+1), "HEAD@{99}", "HEAD@{-1}", "HEAD@{}", "HEAD@{a}", "HEAD@1", "xHEAD@{1}y", "HEAD@{1}{2}", "HEAD@{ 1}", "head@{0}"})
+		arg = pickS(k.R, []string{fmt.Sprintf("HEAD@{%d}", n), fmt.Sprintf("HEAD@{%d}", n+1), "HEAD@{99}", "HEAD@{-1}", "HEAD@{}", "HEAD@{a}", "HEAD@1", "xHEAD@{1}y", "HEAD@{1}{2}", "HEAD@{ 1}", "head@{0}",
+			"HEAD@{4294967296}", "HEAD@{9223372036854775808}", "HEAD@{18446744073709551615}", "HEAD@{18446744073709551617}", "HEAD@{99999999999999999999999}", fmt.Sprintf("HEAD@{%d}", n+10), fmt.Sprintf("HEAD@{%d}", n+20)})
 	} else if n > 0 {
 		// prefer deep positions sometimes so that two-digit positions are reached
 		if n > 10 && k.chance(40) {
@@ -396,12 +397,12 @@ func runC08(c *core.Ctx) {
 type C11Mon struct{}
 
 type c11State struct {
-	prev      []ReflogEntry
-	havePrev  bool
-	adds      int    // journal-adding commands that succeeded since prev
-	renames   int    // renames/deletes since prev (entries added: unspecified)
-	lastKind  string // kind of the last journal-adding command since prev ("" if a rename came after it)
-	msgClass  string
+	prev     []ReflogEntry
+	havePrev bool
+	adds     int    // journal-adding commands that succeeded since prev
+	renames  int    // renames/deletes since prev (entries added: unspecified)
+	lastKind string // kind of the last journal-adding command since prev ("" if a rename came after it)
+	msgClass string
 }
 
 func journalKind(st *core.Step) string {
@@ -615,15 +616,15 @@ func runC11(c *core.Ctx) {
 
 func init() {
 	register(&Prop{ID: "C08", Level: "exploration",
-		Rule: "seeded histories with 2-13 commits on 1-3 branches, switches, renames and earlier resets; before each reset the working tree is perturbed (modify, delete, rmdir, new untracked files) and `reflog` is parsed; reset in all three modes to valid positions (incl. n>=10) and to out-of-range / malformed spellings; oracle: branch == the commit reflog displays at n, HEAD and other branches unchanged, soft/mixed/hard effects on staging area and working files, never-tracked files untouched, invalid => refused and sandbox byte-identical; distinct = (mode, position class, working-tree perturbation class, #branches)",
-		Mons:  func() []core.Monitor { return []core.Monitor{C08Mon{}} },
-		Run:   runC08,
+		Rule:   "seeded histories with 2-13 commits on 1-3 branches, switches, renames and earlier resets; before each reset the working tree is perturbed (modify, delete, rmdir, new untracked files) and `reflog` is parsed; reset in all three modes to valid positions (incl. n>=10) and to out-of-range / malformed spellings; oracle: branch == the commit reflog displays at n, HEAD and other branches unchanged, soft/mixed/hard effects on staging area and working files, never-tracked files untouched, invalid => refused and sandbox byte-identical; distinct = (mode, position class, working-tree perturbation class, #branches)",
+		Mons:   func() []core.Monitor { return []core.Monitor{C08Mon{}} },
+		Run:    runC08,
 		Floors: []core.Floor{{Key: "C08.target", Min: 150}, {Key: "C08.refusal-frame", Min: 40}, {Key: "C08.hard-files", Min: 40}},
 	})
 	register(&Prop{ID: "C11", Level: "exploration",
-		Rule: "seeded histories of commit/switch/switch -c/reset/branch rename/delete with commit messages from every class of the quantifier (': ', tabs, several lines, lines of >=3 words, leading/trailing blanks, blank lines, non-ASCII, KiB-long lines, log look-alikes), identities with spaces/non-ASCII/punctuation and a process TZ drawn from all quarter-hour offsets; `reflog` is parsed after every such command: HEAD@{0} == (HEAD's commit, kind), the previous listing is a suffix shifted by exactly the number of entries added, reflog exits 0 whenever a journal exists, and reset HEAD@{n} lands on the commit reflog displays at n; distinct = (command kind, message class / rename, journal length bucket)",
-		Mons:  func() []core.Monitor { return []core.Monitor{C11Mon{}} },
-		Run:   runC11,
+		Rule:   "seeded histories of commit/switch/switch -c/reset/branch rename/delete with commit messages from every class of the quantifier (': ', tabs, several lines, lines of >=3 words, leading/trailing blanks, blank lines, non-ASCII, KiB-long lines, log look-alikes), identities with spaces/non-ASCII/punctuation and a process TZ drawn from all quarter-hour offsets; `reflog` is parsed after every such command: HEAD@{0} == (HEAD's commit, kind), the previous listing is a suffix shifted by exactly the number of entries added, reflog exits 0 whenever a journal exists, and reset HEAD@{n} lands on the commit reflog displays at n; distinct = (command kind, message class / rename, journal length bucket)",
+		Mons:   func() []core.Monitor { return []core.Monitor{C11Mon{}} },
+		Run:    runC11,
 		Floors: []core.Floor{{Key: "C11.suffix", Min: 800}, {Key: "C11.entry0", Min: 500}, {Key: "C11.target", Min: 60}},
 	})
 }
